@@ -76,6 +76,11 @@ def cases(rng, tier):
     # objects handed back by the library's own moves / shuffles (also with frozen sets, also from a parent whose cache is warm)
     for l in core.childq_cases(rng, 90 if tier == "quick" else 600, ['html']):
         yield Case([l], {"kind": "object-from-move"})
+    # chains beyond 1000 / 4096 / 8192 residues (lengths at and next to powers of two and round thousands)
+    for L in ((1000, 1024, 1025, 2049, 4096, 4097, 4146, 5003) if tier == "quick" else (1000, 1001, 1024, 1025, 2048, 2049, 4096, 4097, 4100, 4146, 5003, 8192, 8193, 8250, 10001)):
+        s = gen.rand_seq(rng, "idp", L)
+        d, kind = rand_update(rng)
+        yield Case(["new 1 " + s, "o 1 html", "setpal 1 " + dtok(d), "o 1 html"], {"kind": "very-long", "seq": s, "hist": [(d, kind)]})
     lens = [1, 2, 9, 10, 11, 12, 49, 50, 51, 52, 99, 100, 101, 149, 150, 151, 250]
     n = 150 if tier == "quick" else 1500
     for i in range(n):
